@@ -73,36 +73,216 @@ func main() {
 	aliasing(repo, vars)
 }
 
+// typeKind classifies a type expression syntactically:
+//
+//	basic   string / bool / numeric / arrays of those — a value, immutable unless the holder is assigned
+//	func    function value
+//	ptr map slice chan sync   reference-like: pointers, maps, slices, channels, anything from sync / sync/atomic
+//	value   external named types known to be plain values (gethcommon.Address, gethcommon.Hash)
+//	local   a named type declared in the inventoried packages (its own fields are inventoried)
+//	named   any other named type (interfaces, generics, external structs): mutability unknown
+func typeKind(e ast.Expr, local map[string]bool) string {
+	t := Nospace(e)
+	if strings.Contains(t, "sync.") || strings.Contains(t, "atomic.") {
+		return "sync"
+	}
+	switch x := e.(type) {
+	case *ast.StarExpr:
+		return "ptr"
+	case *ast.MapType:
+		return "map"
+	case *ast.ChanType:
+		return "chan"
+	case *ast.FuncType:
+		return "func"
+	case *ast.ArrayType:
+		if x.Len == nil {
+			return "slice"
+		}
+		if typeKind(x.Elt, local) == "basic" {
+			return "basic"
+		}
+		return "named"
+	case *ast.Ident:
+		switch x.Name {
+		case "string", "bool", "byte", "rune", "int", "int8", "int16", "int32", "int64", "uint", "uint8", "uint16", "uint32", "uint64", "float32", "float64", "uintptr":
+			return "basic"
+		}
+		if local[x.Name] {
+			return "local"
+		}
+		return "named"
+	case *ast.SelectorExpr:
+		if t == "gethcommon.Address" || t == "common.Address" || t == "gethcommon.Hash" || t == "common.Hash" {
+			return "value"
+		}
+		return "named"
+	}
+	return "named"
+}
+
 // sharedState inventories the state that lives on process-wide singletons reachable from BOTH block execution and
-// read-only requests: every field of every struct type of x/evm/keeper and x/evm/precompile (the evm Keeper, the bank
-// keeper wrapper, the collections descriptors, the precompile objects built once by InitPrecompiles), and every
-// package-level `var` of the non-generated, non-test code under x/evm.
+// read-only requests.  Fields: of the root structs (evm Keeper, NibiruBankKeeper, every struct type of
+// x/evm/precompile that has a Run method, i.e. the precompile objects built once by InitPrecompiles) and, transitively,
+// of the struct types of those two packages their fields name.  Type aliases and per-call structs are not roots.
+// Variables: every package-level `var` of the non-generated, non-test code under x/evm.  For each, the syntactic kind
+// of its type / initialiser and whether it is assigned outside constructors (New*/Precompile*/Init*/init).
 func sharedState(repo string) map[string]bool {
-	type field struct{ dir, st, name, typ string }
-	var fields []field
-	for _, dir := range []string{"x/evm/keeper", "x/evm/precompile"} {
+	type sdecl struct {
+		dir string
+		st  *ast.StructType
+	}
+	structs := map[string]sdecl{}
+	hasRun := map[string]bool{}
+	var allFiles []File
+	dirs := []string{"x/evm/keeper", "x/evm/precompile"}
+	for _, dir := range dirs {
 		for _, fl := range ParseDir(filepath.Join(repo, dir)) {
+			allFiles = append(allFiles, fl)
 			for _, decl := range fl.F.Decls {
-				gd, ok := decl.(*ast.GenDecl)
-				if !ok || gd.Tok != token.TYPE {
-					continue
-				}
-				for _, sp := range gd.Specs {
-					ts := sp.(*ast.TypeSpec)
-					stt, ok := ts.Type.(*ast.StructType)
-					if !ok {
+				switch d := decl.(type) {
+				case *ast.GenDecl:
+					if d.Tok != token.TYPE {
 						continue
 					}
-					for _, f := range stt.Fields.List {
-						typ := Nospace(f.Type)
-						if len(f.Names) == 0 { // embedded
-							fields = append(fields, field{dir, ts.Name.Name, "<embedded>", typ})
+					for _, sp := range d.Specs {
+						ts := sp.(*ast.TypeSpec)
+						if ts.Assign.IsValid() { // alias: no new type
+							continue
 						}
-						for _, n := range f.Names {
-							fields = append(fields, field{dir, ts.Name.Name, n.Name, typ})
+						if stt, ok := ts.Type.(*ast.StructType); ok {
+							structs[ts.Name.Name] = sdecl{dir, stt}
+						}
+					}
+				case *ast.FuncDecl:
+					if d.Recv != nil && d.Name.Name == "Run" && len(d.Recv.List) == 1 {
+						t := d.Recv.List[0].Type
+						if st, ok := t.(*ast.StarExpr); ok {
+							t = st.X
+						}
+						if id, ok := t.(*ast.Ident); ok && dir == "x/evm/precompile" {
+							hasRun[id.Name] = true
 						}
 					}
 				}
+			}
+		}
+	}
+	local := map[string]bool{}
+	for n := range structs {
+		local[n] = true
+	}
+	// closure from the roots
+	reach := map[string]bool{}
+	var visit func(n string)
+	visit = func(n string) {
+		if reach[n] {
+			return
+		}
+		sd, ok := structs[n]
+		if !ok {
+			return
+		}
+		reach[n] = true
+		for _, f := range sd.st.Fields.List {
+			ast.Inspect(f.Type, func(m ast.Node) bool {
+				if id, ok := m.(*ast.Ident); ok && local[id.Name] {
+					visit(id.Name)
+				}
+				return true
+			})
+		}
+	}
+	visit("Keeper")
+	visit("NibiruBankKeeper")
+	for n := range hasRun {
+		visit(n)
+	}
+	// field names assigned outside constructors, anywhere under x/evm
+	ctor := func(name string) bool {
+		return name == "init" || strings.HasPrefix(name, "New") || strings.HasPrefix(name, "Precompile") || strings.HasPrefix(name, "Init")
+	}
+	assignedField := map[string]bool{}
+	assignedVar := map[string]bool{} // dir|name
+	var evmFiles []struct {
+		dir string
+		fl  File
+	}
+	filepath.WalkDir(filepath.Join(repo, "x/evm"), func(p string, d os.DirEntry, err error) error {
+		if err != nil || !d.IsDir() {
+			return nil
+		}
+		for _, fl := range ParseDir(p) {
+			if !strings.Contains(filepath.Base(fl.Path), ".pb.") {
+				evmFiles = append(evmFiles, struct {
+					dir string
+					fl  File
+				}{strings.TrimPrefix(p, repo+"/"), fl})
+			}
+		}
+		return nil
+	})
+	lhsRoot := func(e ast.Expr) ast.Expr { // x[i] = …, *x = … count as assignments to x
+		for {
+			switch x := e.(type) {
+			case *ast.IndexExpr:
+				e = x.X
+			case *ast.StarExpr:
+				e = x.X
+			case *ast.ParenExpr:
+				e = x.X
+			default:
+				return e
+			}
+		}
+	}
+	for _, ef := range evmFiles {
+		for _, decl := range ef.fl.F.Decls {
+			fd, ok := decl.(*ast.FuncDecl)
+			if !ok || fd.Body == nil || ctor(fd.Name.Name) {
+				continue
+			}
+			mark := func(l ast.Expr) {
+				switch x := lhsRoot(l).(type) {
+				case *ast.SelectorExpr:
+					assignedField[x.Sel.Name] = true
+					if id, ok := x.X.(*ast.Ident); ok {
+						assignedVar["pkg:"+id.Name+"|"+x.Sel.Name] = true
+					}
+				case *ast.Ident:
+					assignedVar[ef.dir+"|"+x.Name] = true
+				}
+			}
+			// locals shadowing package names are rare in this code base; := definitions are not assignments to package vars
+			ast.Inspect(fd.Body, func(n ast.Node) bool {
+				switch a := n.(type) {
+				case *ast.AssignStmt:
+					if a.Tok == token.DEFINE {
+						return true
+					}
+					for _, l := range a.Lhs {
+						mark(l)
+					}
+				case *ast.IncDecStmt:
+					mark(a.X)
+				}
+				return true
+			})
+		}
+	}
+
+	type field struct{ dir, st, name, typ, kind string }
+	var fields []field
+	for n := range reach {
+		sd := structs[n]
+		for _, f := range sd.st.Fields.List {
+			typ := Nospace(f.Type)
+			k := typeKind(f.Type, local)
+			if len(f.Names) == 0 {
+				fields = append(fields, field{sd.dir, n, "<embedded>", typ, k})
+			}
+			for _, nm := range f.Names {
+				fields = append(fields, field{sd.dir, n, nm.Name, typ, k})
 			}
 		}
 	}
@@ -110,63 +290,92 @@ func sharedState(repo string) map[string]bool {
 		a, b := fields[i], fields[j]
 		return a.dir+"|"+a.st+"|"+a.name+"|"+a.typ < b.dir+"|"+b.st+"|"+b.name+"|"+b.typ
 	})
-	fmt.Println("(* fields of the singleton structs shared by DeliverTx and requests: (directory, struct, field, type) *)")
-	fmt.Println("Definition shared_fields : list (string * string * string * string) := [")
+	fmt.Println("(* fields of the singleton structs shared by DeliverTx and requests: (directory, struct, field, type, kind of the type, assigned outside constructors) *)")
+	fmt.Println("Definition shared_fields : list (string * string * string * string * string * bool) := [")
 	for i, f := range fields {
 		sep := ";"
 		if i == len(fields)-1 {
 			sep = ""
 		}
-		fmt.Printf("  (%s, %s, %s, %s)%s\n", CoqString(f.dir), CoqString(f.st), CoqString(f.name), CoqString(f.typ), sep)
+		fmt.Printf("  (%s, %s, %s, %s, %s, %s)%s\n", CoqString(f.dir), CoqString(f.st), CoqString(f.name), CoqString(f.typ), CoqString(f.kind),
+			CoqBool(f.name != "<embedded>" && assignedField[f.name]), sep)
 	}
 	fmt.Println("].")
 
-	type pvar struct{ dir, name, typ string }
+	// package-level variables
+	type pvar struct {
+		dir, name, typ, kind string
+		assigned             bool
+	}
 	var vars []pvar
-	filepath.WalkDir(filepath.Join(repo, "x/evm"), func(p string, d os.DirEntry, err error) error {
-		if err != nil || !d.IsDir() {
-			return nil
+	initKind := func(v ast.Expr) string {
+		switch x := v.(type) {
+		case *ast.BasicLit:
+			return "basic"
+		case *ast.FuncLit:
+			return "func"
+		case *ast.CallExpr:
+			f := Nospace(x.Fun)
+			switch {
+			case f == "errors.New" || f == "fmt.Errorf" || strings.HasSuffix(f, ".Register") && strings.Contains(f, "err") ||
+				f == "errorsmod.Register" || f == "sdkerrors.Register" || f == "errorsmod.Wrap" || f == "errorsmod.Wrapf":
+				return "err"
+			case strings.HasSuffix(f, "HexToAddress") || strings.HasSuffix(f, "BytesToAddress") || strings.HasSuffix(f, "HexToHash"):
+				return "value"
+			}
 		}
-		for _, fl := range ParseDir(p) {
-			if strings.Contains(filepath.Base(fl.Path), ".pb.") {
+		return "ref"
+	}
+	for _, ef := range evmFiles {
+		pkg := ef.fl.F.Name.Name
+		for _, decl := range ef.fl.F.Decls {
+			gd, ok := decl.(*ast.GenDecl)
+			if !ok || gd.Tok != token.VAR {
 				continue
 			}
-			for _, decl := range fl.F.Decls {
-				gd, ok := decl.(*ast.GenDecl)
-				if !ok || gd.Tok != token.VAR {
-					continue
-				}
-				for _, sp := range gd.Specs {
-					vs := sp.(*ast.ValueSpec)
-					for _, n := range vs.Names {
-						if n.Name == "_" {
-							continue
-						}
-						typ := ""
-						if vs.Type != nil {
-							typ = Nospace(vs.Type)
-						}
-						vars = append(vars, pvar{strings.TrimPrefix(p, repo+"/"), n.Name, typ})
+			for _, sp := range gd.Specs {
+				vs := sp.(*ast.ValueSpec)
+				for i, n := range vs.Names {
+					if n.Name == "_" {
+						continue
 					}
+					typ, kind := "", "ref"
+					if vs.Type != nil {
+						typ = Nospace(vs.Type)
+						switch typeKind(vs.Type, nil) {
+						case "basic":
+							kind = "basic"
+						case "func":
+							kind = "func"
+						case "value":
+							kind = "value"
+						}
+						if typ == "error" {
+							kind = "err"
+						}
+					}
+					if i < len(vs.Values) && vs.Type == nil {
+						kind = initKind(vs.Values[i])
+					}
+					vars = append(vars, pvar{ef.dir, n.Name, typ, kind, assignedVar[ef.dir+"|"+n.Name] || assignedVar["pkg:"+pkg+"|"+n.Name]})
 				}
 			}
 		}
-		return nil
-	})
+	}
 	sort.Slice(vars, func(i, j int) bool { return vars[i].dir+"|"+vars[i].name < vars[j].dir+"|"+vars[j].name })
-	fmt.Println("(* package-level variables of x/evm (non-test, non-generated): (directory, name, declared type or \"\") *)")
-	fmt.Println("Definition package_vars : list (string * string * string) := [")
+	fmt.Println("(* package-level variables of x/evm (non-test, non-generated): (directory, name, declared type or \"\", kind, assigned outside init/constructors) *)")
+	fmt.Println("Definition package_vars : list (string * string * string * string * bool) := [")
 	for i, v := range vars {
 		sep := ";"
 		if i == len(vars)-1 {
 			sep = ""
 		}
-		fmt.Printf("  (%s, %s, %s)%s\n", CoqString(v.dir), CoqString(v.name), CoqString(v.typ), sep)
+		fmt.Printf("  (%s, %s, %s, %s, %s)%s\n", CoqString(v.dir), CoqString(v.name), CoqString(v.typ), CoqString(v.kind), CoqBool(v.assigned), sep)
 	}
 	fmt.Println("].")
 	names := map[string]bool{}
 	for _, v := range vars {
-		if !strings.HasPrefix(v.dir, "x/evm/embeds") && v.dir != "x/evm/evmtest" && v.dir != "x/evm/cli" {
+		if !strings.HasPrefix(v.dir, "x/evm/embeds") && v.dir != "x/evm/evmtest" && v.dir != "x/evm/cli" && (v.kind == "ref" || v.assigned) {
 			names[v.dir+"|"+v.name] = true
 		}
 	}
@@ -200,7 +409,7 @@ func freshValue(e ast.Expr) bool {
 //	inplace_sites  calls `x.Op(x, …)` / `x.SetXxx(v)` of a receiver-overwriting big-number method whose receiver x is
 //	               NOT certainly fresh (a parameter, a field, a package variable, a value returned by another function):
 //	               the arithmetic that can change a value somebody else still holds
-//	var_aliases    `return <package-level variable of x/evm>`: functions that hand out the shared object itself
+//	var_aliases    `return <reference-like package-level variable of x/evm>`: functions that hand out the shared object itself
 func aliasing(repo string, pkgVars map[string]bool) {
 	type site struct{ dir, fn, expr string }
 	var inplace, aliases []site
@@ -288,7 +497,7 @@ func aliasing(repo string, pkgVars map[string]bool) {
 										}
 									}
 								}
-								if name != "" && !strings.HasPrefix(strings.TrimPrefix(name, "evm."), "Err") {
+								if name != "" {
 									aliases = append(aliases, site{dir, fd.Name.Name, name})
 								}
 							}
